@@ -170,7 +170,7 @@ func hugeOrNonFinite(m *afm.Metrics) bool {
 }
 
 func runC15(r *rt.Runner) {
-	n := r.N(50000, 1000000)
+	n := r.N(150000, 1500000)
 	for k := 0; k < n; k++ {
 		r.Case("model", func(c *rt.C) {
 			rng := c.Rand()
